@@ -557,3 +557,94 @@ def _replay_rename(inputs, ghost=None):
     shutil.rmtree(d, ignore_errors=True)
     out.update(returned=None, violations=viol, violates_contract=bool(viol))
     return out
+
+
+def _cooler_from_model(g):
+    """a real cooler file that agrees with the counter-model on the chromosome named by the region (bins of
+    chromosome c as in the model); the other chromosomes are rebuilt as small regular ones, so expectations are
+    recomputed on the file's own table rather than taken from the model's numbers"""
+    import os
+    import tempfile
+    import pandas as pd
+    import cooler
+    nchrom = int(g.get("nchrom") or 0)
+    c = g.get("c")
+    off, st, en, clen = (list(g.get(k)) if g.get(k) is not None else [] for k in ("off", "start", "end", "clen"))
+    b = g.get("binsize")
+    if not (isinstance(c, int) and 0 <= c < nchrom <= 6 and len(off) > c + 1):
+        return None
+    lo, hi = int(off[c]), int(off[c + 1])
+    if not (0 <= lo < hi <= len(st) and hi <= len(en) and hi - lo <= 40):
+        return None
+    rows = []
+    for i in range(nchrom):
+        if i == c:
+            rows += [(f"c{i}", int(st[k]), int(en[k])) for k in range(lo, hi)]
+        else:
+            w = int(b) if b else 7
+            rows += [(f"c{i}", 0, w), (f"c{i}", w, w + max(1, w // 2))]
+    bins = pd.DataFrame(rows, columns=["chrom", "start", "end"])
+    if (bins["end"] <= bins["start"]).any() or (bins["start"] < 0).any():
+        return None
+    n = len(bins)
+    pix = pd.DataFrame({"bin1_id": list(range(n)), "bin2_id": list(range(n)), "count": [1] * n})
+    d = tempfile.mkdtemp(prefix="pyvc_ext_")
+    p = os.path.join(d, "m.cool")
+    cooler.create_cooler(p, bins, pix)
+    return d, p, bins, f"c{c}"
+
+
+def _replay_cooler_region(method):
+    def run(inputs, ghost=None):
+        import shutil
+        import cooler
+        g = {k: conv(v) for k, v in (ghost or {}).items()}
+        a = {"region": conv(inputs["region"])}
+        out = {"inputs_used": {"region": repr(a.get("region")), "ghost": {k: repr(v)[:80] for k, v in g.items()}}}
+        if g.get("known"):
+            built = _cooler_from_model(g)
+        else:
+            # a chromosome the collection does not have: any table will do, the name must be refused
+            built = _cooler_from_model({"nchrom": 2, "c": 0, "off": [0, 2, 4], "start": [0, 5, 0, 5], "end": [5, 9, 5, 8],
+                                        "clen": [9, 8], "binsize": None})
+            if built is not None:
+                built = built[:3] + ("no_such_chromosome",)
+        if built is None:
+            out.update(violations=[], violates_contract=False, note="model does not describe a buildable table; not judged")
+            return out
+        d, p, bins, name = built
+        reg = list(a["region"])
+        region = (name, reg[1], reg[2])
+        clr = cooler.Cooler(p)
+        unknown = name not in clr.chromsizes
+        L_ = 0 if unknown else int(clr.chromsizes[name])
+        s = 0 if region[1] is None else int(region[1])
+        e = L_ if region[2] is None else int(region[2])
+        bad = unknown or e < s or s < 0 or e > L_
+        viol, res, raised = [], None, None
+        try:
+            res = getattr(clr, method)(region)
+        except Exception as ex:
+            raised = ex
+        out["raised"] = None if raised is None else f"{type(raised).__name__}: {raised}"
+        out["returned"] = repr(res)
+        idx = [k for k in range(len(bins)) if bins["chrom"][k] == name]
+        ov = [k for k in idx if bins["start"][k] < e and bins["end"][k] > s]
+        if bad:
+            if not isinstance(raised, ValueError):
+                viol.append(f"{method}{region} should be refused with ValueError, got {out['raised'] or res}")
+        elif raised is not None:
+            viol.append(f"{method}{region} raised {out['raised']}")
+        elif s < e:
+            if method == "extent" and list(range(int(res[0]), int(res[1]))) != ov:
+                viol.append(f"extent{region} = {res}, overlapping bins are {ov}")
+            if method == "offset" and (not ov or int(res) != ov[0]):
+                viol.append(f"offset{region} = {res}, first overlapping bin is {ov[:1]}")
+        shutil.rmtree(d, ignore_errors=True)
+        out.update(violations=viol, violates_contract=bool(viol))
+        return out
+    return run
+
+
+CUSTOM["cooler.api:Cooler.extent"] = _replay_cooler_region("extent")
+CUSTOM["cooler.api:Cooler.offset"] = _replay_cooler_region("offset")
